@@ -1,8 +1,9 @@
 #!/bin/bash
 # usage: seed_rerun.sh <seed id, e.g. C14-1> [...]   — re-run the quick check of each recorded seeded change
 # (/verif/seeded/<id>/patch.diff) against a scratch worktree of /repo; prints one verdict line per seed and
-# updates meta.json["check_result"].  Scratch: /tmp/seedrepo (repo worktree), /tmp/seedvt (verif worktree); both removed at the end.
-R=/tmp/seedrepo; V=/tmp/seedvt
+# updates meta.json["check_result"].  Scratch: /tmp/seedrepo$SEED_SLOT (repo worktree), /tmp/seedvt$SEED_SLOT (verif worktree); both removed at the end.
+# Several instances can run side by side with different SEED_SLOT values.
+R=/tmp/seedrepo${SEED_SLOT:-}; V=/tmp/seedvt${SEED_SLOT:-}
 git -C /repo worktree remove --force $R 2>/dev/null; git -C /repo worktree add -q --detach $R HEAD || exit 2
 git -C /verif worktree remove --force $V 2>/dev/null; git -C /verif worktree add -q --detach $V HEAD || exit 2
 mkdir -p $V/lean && cp -a /verif/lean/.lake $V/lean/ 2>/dev/null
